@@ -264,6 +264,24 @@ def unmodelledMarkers : List (List Byte) :=
 
 def endswap32 (v : Nat) : Nat := ofLE (beBytes 4 v)
 
+/-- the encoding switch of `aiff_read_comm_chunk`: (format word, sampleSize after the fl32 / fl64 repair).
+    Format: none = SFE_UNIMPLEMENTED, some none = an encoding outside this model (DWVW, GSM, ima4). -/
+def commFmt (enc : List Byte) (ss0 : Int) : Option (Option Nat) × Int :=
+  let ss : Int := if (enc = mk4 "fl32" ∨ enc = mk4 "FL32") then 32 else if (enc = mk4 "fl64" ∨ enc = mk4 "FL64") then 64 else ss0
+  let sub : Nat := if ss < 8 ∨ ss > 32 then 0 else [0x01, 0x02, 0x03, 0x04].getD (((ss + 7) / 8).toNat - 1) 0
+  let fmt : Option (Option Nat) :=
+    if enc = mk4 "NONE" then some (some (0x020000 + sub))
+    else if enc = mk4 "twos" ∨ enc = mk4 "in24" ∨ enc = mk4 "in32" then some (some (0x20000000 + 0x020000 + sub))
+    else if enc = mk4 "sowt" ∨ enc = mk4 "42n1" ∨ enc = mk4 "23ni" then some (some (0x10000000 + 0x020000 + sub))
+    else if enc = mk4 "fl32" ∨ enc = mk4 "FL32" then some (some 0x020006)
+    else if enc = mk4 "ulaw" ∨ enc = mk4 "ULAW" then some (some 0x020010)
+    else if enc = mk4 "alaw" ∨ enc = mk4 "ALAW" then some (some 0x020011)
+    else if enc = mk4 "fl64" ∨ enc = mk4 "FL64" then some (some 0x020007)
+    else if enc = mk4 "raw " then some (some 0x020005)
+    else if enc = mk4 "DWVW" ∨ enc = mk4 "GSM " ∨ enc = mk4 "ima4" then some none
+    else none
+  (fmt, ss)
+
 /-- `aiff_read_comm_chunk`; `size` is the (evened) chunk size -/
 def readComm (bs : List Byte) (s : Sc) (pos size : Nat) : Step :=
   let (f1, p) := rdN bs pos 2
@@ -285,39 +303,28 @@ def readComm (bs : List Byte) (s : Sc) (pos size : Nat) : Step :=
     else ([0, 0, 0, 0], p, 0)
   let sr := ten2int f4
   if numCh < 1 ∨ numCh > 1024 then .fail else
-  let ss : Int := if (enc = mk4 "fl32" ∨ enc = mk4 "FL32") then 32 else if (enc = mk4 "fl64" ∨ enc = mk4 "FL64") then 64 else ss0
-  let sub : Nat := if ss < 8 ∨ ss > 32 then 0 else [0x01, 0x02, 0x03, 0x04].getD (((ss + 7) / 8).toNat - 1) 0
-  let fmt : Option (Option Nat) :=          -- none: SFE_UNIMPLEMENTED, some none: an encoding outside this model
-    if enc = mk4 "NONE" then some (some (0x020000 + sub))
-    else if enc = mk4 "twos" ∨ enc = mk4 "in24" ∨ enc = mk4 "in32" then some (some (0x20000000 + 0x020000 + sub))
-    else if enc = mk4 "sowt" ∨ enc = mk4 "42n1" ∨ enc = mk4 "23ni" then some (some (0x10000000 + 0x020000 + sub))
-    else if enc = mk4 "fl32" ∨ enc = mk4 "FL32" then some (some 0x020006)
-    else if enc = mk4 "ulaw" ∨ enc = mk4 "ULAW" then some (some 0x020010)
-    else if enc = mk4 "alaw" ∨ enc = mk4 "ALAW" then some (some 0x020011)
-    else if enc = mk4 "fl64" ∨ enc = mk4 "FL64" then some (some 0x020007)
-    else if enc = mk4 "raw " then some (some 0x020005)
-    else if enc = mk4 "DWVW" ∨ enc = mk4 "GSM " ∨ enc = mk4 "ima4" then some none
-    else none
-  match fmt with
-  | none => .fail
-  | some none => .unm
-  | some (some w) =>
+  match commFmt enc ss0 with
+  | (none, _) => .fail
+  | (some none, _) => .unm
+  | (some (some w), ss) =>
     .cont { s with pos := p, used := s.used + 18 + extra, csize := size, haveComm := true, ch := numCh.toNat, sr := sr,
                    fmt := w, sampleSize := ss }
 
+/-- the arithmetic of the `SSND` case: (dataoffset, datalength, dataend) from the file length, the chunk size,
+    the file position after the offset / blocksize words, the offset word and the previous dataend -/
+def ssndCalc (flen size p offset dataend0 : Int) : Int × Int × Int :=
+  let dl0 := size - 8
+  let dl := if dl0 > flen - p ∨ dl0 < 0 then flen - p else dl0
+  let doff := p + offset
+  let dl' := dl - offset
+  (doff, dl', if dl' + doff < flen then dl' + doff else dataend0)
+
 /-- the `SSND` case -/
 def readSsnd (bs : List Byte) (s : Sc) (pos size : Nat) : Step :=
-  let flen : Int := bs.length
   let (o, p) := rdN bs pos 4
   let (_, p) := rdN bs p 4
-  let offset : Int := ofBE o
-  let dl0 : Int := (size : Int) - 8
-  let do0 : Int := p
-  let dl : Int := if dl0 > flen - do0 ∨ dl0 < 0 then flen - do0 else dl0
-  let doff := do0 + offset
-  let dl' := dl - offset
-  let dend := if dl' + doff < flen then dl' + doff else s.dataend
-  .cont { s with pos := (doff + dl').toNat, used := s.used + 8, csize := size, dataoffset := doff, datalength := dl', dataend := dend }
+  let r := ssndCalc bs.length size p (ofBE o) s.dataend
+  .cont { s with pos := (r.1 + r.2.1).toNat, used := s.used + 8, csize := size, dataoffset := r.1, datalength := r.2.1, dataend := r.2.2 }
 
 /-- one iteration of the `while (! done)` loop of `aiff_read_header` (after the FORM chunk) -/
 def step (bs : List Byte) (s : Sc) : Step :=
@@ -365,26 +372,28 @@ def pcmKeys : List Int :=
    0x20000 + 0x20000000, 0x30000 + 0x20000000, 0x40000 + 0x20000000,
    0x20000 + 0x10000000, 0x30000 + 0x10000000, 0x40000 + 0x10000000]
 
+/-- `psf->blockwidth` after the codec init of aiff_open, or none when the init fails (pcm_init's switch on
+    `bytewidth * 0x10000 + psf->endian + chars`, SF_CHARS_SIGNED = 200, SF_CHARS_UNSIGNED = 201; unknown codec) -/
+def blockwidthOf (fmt : Nat) (sampleSize : Int) (ch : Nat) : Option Int :=
+  let codec := fmt % 0x10000
+  let bytewidth : Int := (sampleSize + 7).tdiv 8            -- BITWIDTH2BYTES on the int16 sampleSize
+  let e : Int := if fmt / 0x10000000 % 4 = 1 then 0x10000000 else 0x20000000
+  let pcmOk (chars : Int) : Bool :=
+    bytewidth ≠ 0 ∧ pcmKeys.contains (bytewidth * 0x10000 + e + chars)
+  match codec with
+  | 0x01 => if pcmOk 200 then some (bytewidth * ch) else none
+  | 0x02 | 0x03 | 0x04 => if pcmOk 0 then some (bytewidth * ch) else none
+  | 0x05 => if pcmOk 201 then some (bytewidth * ch) else none
+  | 0x10 | 0x11 => some (ch : Int)
+  | 0x06 => some (4 * (ch : Int))
+  | 0x07 => some (8 * (ch : Int))
+  | _ => none
+
 /-- what follows the chunk loop: the checks at the end of aiff_read_header, the codec init of aiff_open
     (pcm_init / ulaw_init / alaw_init / float32_init / double64_init), validate_sfinfo and validate_psf -/
 def finish (flen : Nat) (s : Sc) : ParseRes :=
   if s.ch < 1 ∨ !s.haveComm then .err else
-  let codec := s.fmt % 0x10000
-  let bytewidth : Int := (s.sampleSize + 7).tdiv 8            -- BITWIDTH2BYTES on the int16 sampleSize
-  -- pcm_init: `switch (bytewidth * 0x10000 + psf->endian + chars)`; SF_CHARS_SIGNED = 200, SF_CHARS_UNSIGNED = 201
-  let e : Int := if s.fmt / 0x10000000 % 4 = 1 then 0x10000000 else 0x20000000
-  let pcmOk (chars : Int) : Bool :=
-    bytewidth ≠ 0 ∧ pcmKeys.contains (bytewidth * 0x10000 + e + chars)
-  let blockwidth : Option Int :=
-    match codec with
-    | 0x01 => if pcmOk 200 then some (bytewidth * s.ch) else none
-    | 0x02 | 0x03 | 0x04 => if pcmOk 0 then some (bytewidth * s.ch) else none
-    | 0x05 => if pcmOk 201 then some (bytewidth * s.ch) else none
-    | 0x10 | 0x11 => some (s.ch : Int)
-    | 0x06 => some (4 * (s.ch : Int))
-    | 0x07 => some (8 * (s.ch : Int))
-    | _ => none
-  match blockwidth with
+  match blockwidthOf s.fmt s.sampleSize s.ch with
   | none => .err
   | some bw =>
     let dl : Int := if (flen : Int) > s.dataoffset then (if s.dataend > 0 then s.dataend - s.dataoffset else flen - s.dataoffset) else 0
